@@ -32,12 +32,32 @@ pub struct Scenario {
     pub sqlite: bool,
     /// generated sequences of consecutive faults (each entry: fractions of S/Q and kinds)
     pub multi: Vec<Vec<(bool, u16, bool)>>,
+    /// changes to a task that only X ever touches, committed together with `x_commit`
+    #[serde(default)]
+    pub x_private: Vec<Intent>,
+    /// changes to that private task committed by X between the interrupted sync and its
+    /// repetition (in the fault-free run: between the sync and a second sync)
+    #[serde(default)]
+    pub between: Vec<Intent>,
 }
 
 #[derive(Clone, Copy, Debug, PartialEq, Eq, Hash, Serialize, Deserialize)]
 pub enum Fault {
     Storage(usize, StorageFault),
     Server(usize, ServerFault),
+}
+
+/// Task 4 of the pool is touched by nobody but X (the shared generators use tasks 0 and 1), so
+/// the operations these intents become do not depend on what X has pulled.
+const PRIVATE: u8 = 4;
+
+fn private_intent() -> BoxedStrategy<Intent> {
+    prop_oneof![
+        2 => Just(Intent::Create { t: PRIVATE }),
+        3 => (0u8..2, 0u8..7, -1i8..2).prop_map(|(p, v, ts)| Intent::Set { t: PRIVATE, p, v, ts }),
+        3 => Just(Intent::Delete { t: PRIVATE }),
+    ]
+    .boxed()
 }
 
 pub fn strategy(sqlite_weight: u32) -> BoxedStrategy<Scenario> {
@@ -55,9 +75,13 @@ pub fn strategy(sqlite_weight: u32) -> BoxedStrategy<Scenario> {
                     proptest::collection::vec((any::<bool>(), any::<u16>(), any::<bool>()), 2..=3),
                     0..=3,
                 ),
+                (
+                    proptest::collection::vec(private_intent(), 0..=2),
+                    proptest::collection::vec(private_intent(), 0..=2),
+                ),
             )
                 .prop_map(
-                    move |(prior, x, other_commit, x_commit, big, tail, sqlite, multi)| Scenario {
+                    move |(prior, x, other_commit, x_commit, big, tail, sqlite, multi, (x_private, between))| Scenario {
                         replicas,
                         prior,
                         x,
@@ -67,6 +91,8 @@ pub fn strategy(sqlite_weight: u32) -> BoxedStrategy<Scenario> {
                         tail,
                         sqlite,
                         multi,
+                        x_private,
+                        between,
                     },
                 )
         })
@@ -121,11 +147,32 @@ fn run(sc: &Scenario, faults: &[Fault]) -> Result<Outcome, Failure> {
     } else {
         w.commit(x, &sc.x_commit)?;
     }
+    if !sc.x_private.is_empty() {
+        w.commit(x, &sc.x_private)?;
+    }
 
     let mut in_window = vec![];
     let mut fired = vec![];
     let mut storage_calls = 0;
     let mut server_requests = 0;
+    if faults.is_empty() {
+        // the uninterrupted sync (what the faults are injected into in the other runs)
+        w.reps[x].probe.arm(None, false);
+        w.ctls[x].arm(vec![]);
+        let World { reps, handles, .. } = &mut w;
+        match reps[x].sync_abortable(&mut handles[x], false) {
+            Some(Ok(())) => {}
+            other => crate::fail!(
+                "sync-error",
+                "the uninterrupted sync of replica {x} failed: {:?}",
+                other.map(|r| r.map_err(|e| e.to_string()))
+            ),
+        }
+        storage_calls = w.reps[x].probe.calls();
+        server_requests = w.ctls[x].requests.get();
+        w.reps[x].probe.disarm();
+        w.ctls[x].disarm();
+    }
     // the interrupted attempts
     for (fi, f) in faults.iter().enumerate() {
         let commits_before = w.reps[x].probe.commits();
@@ -174,6 +221,10 @@ fn run(sc: &Scenario, faults: &[Fault]) -> Result<Outcome, Failure> {
                 e
             })?;
     }
+    // local changes made between the interruption and the repetition
+    if !sc.between.is_empty() {
+        w.commit(x, &sc.between)?;
+    }
     // the clean (re)try
     w.reps[x].probe.arm(None, false);
     w.ctls[x].arm(vec![]);
@@ -194,10 +245,6 @@ fn run(sc: &Scenario, faults: &[Fault]) -> Result<Outcome, Failure> {
             }
             None => unreachable!(),
         }
-    }
-    if faults.is_empty() {
-        storage_calls = w.reps[x].probe.calls();
-        server_requests = w.ctls[x].requests.get();
     }
     w.reps[x].probe.disarm();
     w.check_replica_invariant(x, "after the repeated sync")?;
@@ -313,6 +360,8 @@ pub fn render(sc: &Scenario) -> serde_json::Value {
         "other_replica_commit": sc.other_commit.iter().map(render_intent).collect::<Vec<_>>(),
         "x_commit": sc.x_commit.iter().map(render_intent).collect::<Vec<_>>(),
         "x_pending_over_1MB": sc.big,
+        "x_private_task_changes": sc.x_private.iter().map(render_intent).collect::<Vec<_>>(),
+        "x_changes_between_interruption_and_repetition": sc.between.iter().map(render_intent).collect::<Vec<_>>(),
         "tail": sc.tail.iter().map(render_action).collect::<Vec<_>>(),
         "storage": if sc.sqlite { "sqlite (closed and reopened after each fault)" } else { "in-memory" },
         "faults": "every storage call x {error, stop}, every server request x {error before, lost reply}, plus generated multi-fault sequences",
@@ -322,7 +371,7 @@ pub fn render(sc: &Scenario) -> serde_json::Value {
 pub fn run_prop(e: &Engine) {
     e.assume("'process stop' is modelled by dropping the sync future at a storage call (the transaction is abandoned uncommitted); real kills are covered by C06");
     e.assume("no undo on the faulted replica between the fault and the retry (an accepted version cannot be withdrawn, by design)");
-    let rule = "scenario = generated prior history leaving replica X with versions to pull and operations to push (1 in 6 above the batching threshold, some on SQLite with reopen); for EACH scenario every storage-call index x {error, stop} and every server-request index x {error before effect, lost reply} is injected, plus generated sequences of 2-3 consecutive faults; evaluations count scenario x fault point runs; non-trivial = the fault fell after the server accepted a version of this sync and before the local commit";
+    let rule = "scenario = generated prior history leaving replica X with versions to pull and operations to push (1 in 6 above the batching threshold, some on SQLite with reopen), plus changes to a task only X touches, some committed before the sync and some between the interruption and the repetition (fault-free run: sync, those changes, second sync); for EACH scenario every storage-call index x {error, stop} and every server-request index x {error before effect, lost reply} is injected, plus generated sequences of 2-3 consecutive faults; evaluations count scenario x fault point runs; non-trivial = the fault fell after the server accepted a version of this sync and before the local commit";
     e.set_shrink_iters(300);
     e.campaign(
         "fault-points",
